@@ -115,6 +115,7 @@ type HarnessResult struct {
 	Events        int
 	Blocked       int
 	Winners       []string
+	UnwindCuts    int
 }
 
 type Session struct {
